@@ -301,7 +301,10 @@ def _index_dims(df, frame, index, dimcols):
         # identified only through its items, held in a single-level index that carries a neutral name
         df = df.set_index(dimcols[0])
         # a neutral name - or none at all where pandas' own row numbers cannot be meant (text labels)
-        df.index.name = None if (index == "unnamed" and df.index.dtype == object) else "key"
+        years = df.index.dtype == np.int64 and len(df) > 0 and df.index.min() >= 1700 and df.index.max() <= 2300
+        # ... or where the numbers are calendar years, which nobody's row numbers are (flodym documents this reading)
+        df.index.name = None if (index == "unnamed" and (df.index.dtype == object or years)) else "key"
+        df.attrs["dims_in_index"] = True
     elif index == "unnamed" and len(dimcols) > 1 and not any(c.get("ident") == "name" for c in frame.cols if c["role"] == "dim") \
             and not df[dimcols].isna().any().any():
         # several dimensions identified only through their items, held in index levels without names
@@ -801,6 +804,10 @@ class IoChan(Engine):
         sparse = bool(lay["sparse"])
         if lay["producer"] == "to_df":
             kw = {"index": bool(lay["index"]), "sparse": sparse}
+            if kw["index"] and world["vseed"] % 2:
+                del kw["index"]   # documented default: dimensions go into the index
+            if not sparse and (world["vseed"] // 2) % 2:
+                del kw["sparse"]  # documented default: every entry is listed
             if wide is not None:
                 kw["dim_to_columns"] = dl[wide].name if world["vseed"] % 2 else dl[wide].letter
             snap = X.values.copy()
@@ -962,10 +969,10 @@ class IoChan(Engine):
     @staticmethod
     def _write_table(df, path, medium):
         if medium in ("csv", "csv_reader"):
-            df.to_csv(path, index=isinstance(df.index, pd.MultiIndex) or df.index.name is not None or df.index.dtype == object)
+            df.to_csv(path, index=isinstance(df.index, pd.MultiIndex) or df.index.name is not None or df.index.dtype == object or bool(df.attrs.get("dims_in_index")))
         else:
             # "contiguous data starting in A1": no merged index cells
-            dfx = df.reset_index() if (isinstance(df.index, pd.MultiIndex) or df.index.name is not None or df.index.dtype == object) else df
+            dfx = df.reset_index() if (isinstance(df.index, pd.MultiIndex) or df.index.name is not None or df.index.dtype == object or df.attrs.get("dims_in_index")) else df
             dfx.to_excel(path, sheet_name="data", index=False)
 
     def _import(self, st, frame, world, dims, medium, consumer, flags, medium_faults, target, tmp, exp, prior=None):
@@ -1032,26 +1039,34 @@ class IoChan(Engine):
                     fh.write(now)
             self._probe(st, "reader_object_read_the_path_before")
 
+        # "with default settings": a switch that is off is left out of the call in half of the runs
+        fkw = {}
+        if flags[0] or world["vseed"] % 2:
+            fkw["allow_missing_values"] = flags[0]
+        if flags[1] or (world["vseed"] // 2) % 2:
+            fkw["allow_extra_values"] = flags[1]
+        if len(fkw) < 2:
+            self._probe(st, "import_called_with_default_switches_left_out")
+
         def thunk():
             if medium == "df":
                 d_in = df
             elif medium == "csv":
                 d_in = pd.read_csv(path)
             elif medium == "csv_reader":
-                rd = CSVParameterReader(parameter_files={name: path}, allow_missing_values=flags[0], allow_extra_values=flags[1])
+                rd = CSVParameterReader(parameter_files={name: path}, **fkw)
                 # another reader object with the opposite settings exists in the same program; it must not matter
                 CSVParameterReader(parameter_files={"other": path}, allow_missing_values=not flags[0], allow_extra_values=not flags[1])
                 earlier_read(rd)
                 return rd.read_parameter_values(name, dims)
             else:
-                rd = ExcelParameterReader(parameter_files={name: path}, parameter_sheets={name: "data"},
-                                          allow_missing_values=flags[0], allow_extra_values=flags[1])
+                rd = ExcelParameterReader(parameter_files={name: path}, parameter_sheets={name: "data"}, **fkw)
                 ExcelParameterReader(parameter_files={"other": path}, allow_missing_values=not flags[0], allow_extra_values=not flags[1])
                 earlier_read(rd)
                 return rd.read_parameter_values(name, dims)
             if consumer == "from_df":
-                return FlodymArray.from_df(dims=dims, df=d_in, allow_missing_values=flags[0], allow_extra_values=flags[1])
-            target.set_values_from_df(d_in, allow_missing_values=flags[0], allow_extra_values=flags[1])
+                return FlodymArray.from_df(dims=dims, df=d_in, **fkw)
+            target.set_values_from_df(d_in, **fkw)
             return target
 
         crash = None
